@@ -98,4 +98,61 @@ pub func foo.bad() base.u8 {
 	return this.buf[a[0] - 2]
 }
 `},
+	{"hole_index_alias_store", `
+pub struct foo?(
+	buf : array[8] base.u8,
+)
+
+pub func foo.bad!(i: base.u32, v: base.u8) base.u8 {
+	if this.buf[0] < 8 {
+		this.buf[args.i & 7] = args.v
+		return this.buf[this.buf[0]]
+	}
+	return 0
+}
+`},
+	{"hole_slice_alias_store", `
+pub struct foo?(
+	buf : array[8] base.u8,
+)
+
+pub func foo.bad!(v: base.u8) base.u8 {
+	var s : slice base.u8
+	s = this.buf[0 .. 8]
+	if this.buf[0] < 8 {
+		s[0] = args.v
+		return this.buf[this.buf[0]]
+	}
+	return 0
+}
+`},
+	{"hole_slice_alias_store_reverse", `
+pub struct foo?(
+	buf : array[8] base.u8,
+)
+
+pub func foo.bad!(v: base.u8) base.u8 {
+	var s : slice base.u8
+	s = this.buf[0 .. 8]
+	if s[0] < 8 {
+		this.buf[0] = args.v
+		return this.buf[s[0]]
+	}
+	return 0
+}
+`},
+	{"safe_distinct_arrays_keep_facts", `
+pub struct foo?(
+	a : array[8] base.u8,
+	b : array[8] base.u8,
+)
+
+pub func foo.good!(i: base.u32, v: base.u8) base.u8 {
+	if this.a[0] < 8 {
+		this.b[args.i & 7] = args.v
+		return this.b[this.a[0]]
+	}
+	return 0
+}
+`},
 }
